@@ -1,5 +1,5 @@
 (* FSFacts.v -- laws of the association-list file system and frame lemmas of the primitives. *)
-From LV Require Import Base FS.
+From LV Require Import Base Toml FS.
 
 (* ---------- path equality / prefix ---------- *)
 Lemma path_eqb_spec a b : path_eqb a b = true <-> a = b.
@@ -263,11 +263,35 @@ Proof.
 Qed.
 
 (* ---------- a decidable frame oracle ---------- *)
+Lemma tv_eqb_spec a b : tv_eqb a b = true <-> a = b.
+Proof.
+  revert b. induction a as [s|z|x|l IH|l IH] using tv_ind'; intros b; destruct b; cbn [tv_eqb];
+    try (split; intro H; discriminate).
+  - rewrite beq_spec. split; congruence.
+  - rewrite Z.eqb_eq. split; congruence.
+  - rewrite Bool.eqb_true_iff. split; congruence.
+  - revert l0. induction IH as [|x l Hx _ IHl]; intros [|y l0]; try (split; intro H; try reflexivity; discriminate).
+    rewrite andb_true_iff, Hx. specialize (IHl l0). split.
+    + intros [-> H]. apply IHl in H. congruence.
+    + intros [= -> ->]. split; [reflexivity|]. now apply IHl.
+  - revert l0. induction IH as [|[k x] l Hx _ IHl]; intros [|[k' y] l0]; try (split; intro H; try reflexivity; discriminate).
+    cbn [snd] in Hx. rewrite !andb_true_iff, beq_spec, Hx. specialize (IHl l0). split.
+    + intros [[-> ->] H]. apply IHl in H. congruence.
+    + intros [= -> -> ->]. repeat split. now apply IHl.
+Qed.
+
+Lemma content_eqb_spec a b : content_eqb a b = true <-> a = b.
+Proof.
+  destruct a, b; cbn [content_eqb]; try (split; intro H; discriminate).
+  - rewrite beq_spec. split; congruence.
+  - rewrite tv_eqb_spec. split; congruence.
+Qed.
+
 Lemma node_eqb_spec a b : node_eqb a b = true <-> a = b.
 Proof.
   destruct a, b; cbn [node_eqb]; split; intro H; try discriminate; try reflexivity.
-  - apply andb_true_iff in H as [H1 H2]. apply N.eqb_eq in H1. apply beq_spec in H2. congruence.
-  - injection H as -> ->. now rewrite N.eqb_refl, beq_refl.
+  - apply andb_true_iff in H as [H1 H2]. apply N.eqb_eq in H1. apply content_eqb_spec in H2. congruence.
+  - injection H as -> ->. rewrite N.eqb_refl. cbn. now apply content_eqb_spec.
   - apply N.eqb_eq in H. congruence.
   - injection H as ->. apply N.eqb_refl.
   - apply beq_spec in H. congruence.
